@@ -54,6 +54,19 @@ package keeper
 //@ let isErr := ack.GetError() != ""
 //@ ensures [bad-len] res != nil && len(res) != 1 ==> result != nil && S == old(S) && E == old(E)
 //@ ensures [no-deps-on-result] !isErr ==> E == old(E)
+//@ ensures [vsc-matured-ack-is-noop] (stretch) res != nil && len(res) == 1 && consumerPacket.Type == ccv.VscMaturedPacket ==> result == nil && S == old(S) && E == old(E) && X == old(X)
+//@ ensures [handled-unblocks] res != nil && len(res) == 1 && consumerPacket.Type != ccv.VscMaturedPacket && (res[0] == ccv.V1Result[0] || res[0] == ccv.SlashPacketHandledResult[0]) ==> $ClearSlashRecord.called && $DeleteHeadOfPendingPackets.called && !$UpdateSlashRecordOnBounce.called
+//@ ensures [bounced-keeps-slash-at-head] res != nil && len(res) == 1 && consumerPacket.Type != ccv.VscMaturedPacket && res[0] == ccv.SlashPacketBouncedResult[0] && res[0] != ccv.V1Result[0] && res[0] != ccv.SlashPacketHandledResult[0] ==> $UpdateSlashRecordOnBounce.called && !$DeleteHeadOfPendingPackets.called && !$ClearSlashRecord.called
+//@ ensures [unknown-result-rejected] res != nil && len(res) == 1 && consumerPacket.Type != ccv.VscMaturedPacket && res[0] != ccv.V1Result[0] && res[0] != ccv.SlashPacketHandledResult[0] && res[0] != ccv.SlashPacketBouncedResult[0] ==> result != nil && !$ClearSlashRecord.called && !$DeleteHeadOfPendingPackets.called
+
+//@ func Keeper.UpdateSlashRecordOnSend
+//@ ensures [waiting-since-now] k.GetSlashRecord(ctx).1 && k.GetSlashRecord(ctx).0.WaitingOnReply && k.GetSlashRecord(ctx).0.SendTime == now
+//@ ensures [only-the-record] forall key bytes :: key != consumertypes.SlashRecordKey() ==> S[key] == old(S[key])
+
+//@ func Keeper.UpdateSlashRecordOnBounce
+//@ requires [W-record-present] k.GetSlashRecord(ctx).1
+//@ ensures [not-waiting-send-time-kept] k.GetSlashRecord(ctx).1 && !k.GetSlashRecord(ctx).0.WaitingOnReply && k.GetSlashRecord(ctx).0.SendTime == old(k.GetSlashRecord(ctx)).0.SendTime
+//@ ensures [only-the-record] forall key bytes :: key != consumertypes.SlashRecordKey() ==> S[key] == old(S[key])
 
 // ---------------------------------------------------------------- C01 / C08: applying validator-set changes on the consumer
 
